@@ -450,3 +450,26 @@ SPECS["C20"] = {
     "assumptions": ["b1 = 8 instead of 4096", "filler alphabet {x,#,newline}", "file system and zip reader replaced in the symbolic run"],
     "outside": ["archive content recovery (archive/zip, flate)", "directory walking of the pack tool", "running the entry file"],
 }
+
+_C04 = ["interpreter/common.go", "interpreter/c04.go"]
+SPECS["C04"] = {
+    "explanation": "Program templates with symbolic selectors run through the real parser and interpreter; a Go probe function records a trace of marks. Each template has a "
+                   "direct reference in the harness written from the language reference: try in a loop in a function with 7 handler shapes x otherwise x 6 exit kinds x 3 "
+                   "error types x 1-2 iterations; range loops with symbolic bounds and +/- steps, list/map iteration, condition loops, nested loops with break/continue at "
+                   "symbolic positions; if/elif/else with symbolic guards; return leaving the innermost function. Trace, result and error type must equal the reference.",
+    "level_text": "bounded: all selector assignments of the listed templates",
+    "level_note": "trusts go/ssa, gosym, z3 and the per-template references in the harness; programs outside the templates are not covered",
+    "harnesses": [
+        {"name": "H1-try-in-loop", "pkg": "interpreter", "files": _C04, "fn": "VerifC04TryInLoop",
+         "what": "try/except/otherwise/finally shapes x exits", "reach": ["evaluated"],
+         "quick": {"unwind": 60, "wall_s": 900}, "thorough": {"unwind": 60, "wall_s": 3000}},
+        {"name": "H2-loops", "pkg": "interpreter", "files": _C04, "fn": "VerifC04Loops",
+         "what": "range/list/map/condition loops, nested break/continue", "reach": ["evaluated"],
+         "quick": {"unwind": 60, "wall_s": 600, "max_steps": 3000000}, "thorough": {"unwind": 60, "wall_s": 3000, "max_steps": 3000000}},
+        {"name": "H3-guards-return", "pkg": "interpreter", "files": _C04, "fn": "VerifC04Guards",
+         "what": "if/elif/else guards, return from nested functions", "reach": ["evaluated"],
+         "quick": {"unwind": 60, "wall_s": 900}, "thorough": {"unwind": 60, "wall_s": 3000}},
+    ],
+    "assumptions": ["template programs as listed in the harness", "range step != 0"],
+    "outside": ["non-terminating ranges", "arbitrary generated programs beyond the templates", "nesting depth > 3"],
+}
